@@ -77,6 +77,38 @@ def run(chk):
         sc.report(chk, 'C04', bad, sim, sent, meta)
         sims.append((sim, 'slow-handshake %d' % i))
     sc.compare_with_model(chk, sims, with_timers=True)
+    # a peer whose contact header offers TLS (or carries reserved flag bits) while this node has TLS disabled:
+    # TLS is attempted only when BOTH offer it, so the next thing written is SESS_INIT, in the clear
+    from props import c17
+    advs = []
+    for passive in (False, True):
+        for flags in (0, 1, 3, 0x81, 0xff):
+            adv = c17.Adversary(rng, passive, {'seg_init': 10})
+            adv.peer_flags = flags
+            ok = adv.to_state('established')
+            x = adv.x
+            chk.case({'peer_contact_flags': flags, 'passive': passive})
+            chk.count('peer-contact-flags')
+            bad = []
+            for o in x.obs:
+                if o.get('escaped'):
+                    bad.append(('C04:escape-%s-after-contact-flags' % o['escaped'], 'exception %s escapes after a contact header with flags 0x%02x' % (o['escaped'], flags)))
+                    break
+            fr = adv.frames()
+            kinds = [m['k'] for m in fr[:2]]
+            if not bad and (not ok or kinds != ['contact', 'sess_init']):
+                data = bytes(x.sock.sent)
+                bad.append(('C04:second-not-sessinit', 'peer contact header flags 0x%02x, TLS disabled here: the endpoint wrote %s… (state %s) instead of contact header + SESS_INIT'
+                            % (flags, data[:12].hex(), x.h._state)))
+            if ok and not bad:
+                adv.sim.send(x, bytes(range(25)))
+                for _ in range(6):
+                    adv.coop()
+            bad += tm.mon_c04(adv.sim)
+            for (sig, what) in bad:
+                chk.violation(sig, what, {'passive': passive, 'flags': flags, 'x_cfg': x.model_cfg(), 'x_events': x.events})
+            advs.append((adv, 'peer contact flags %s %s' % (passive, flags)))
+    c17.compare(chk, advs)
     chk.assumptions += ['TLS disabled; the segment-size controller is off in these runs (C14 drives the clamp with arbitrary controller outputs)']
 
 
